@@ -353,29 +353,13 @@ def check_biotypes(spec, ctx):
 # The tables are answers of *functions*; a memo filled by an earlier question must not change a later answer.  Every history
 # runs in a child forked from a pristine interpreter (harness/zygote.py), so it starts from fresh-process state.
 
-_zygote = None
+from harness.zygote import Client  # noqa: E402
 
-
-def zygote():
-    global _zygote
-    if _zygote is None or _zygote.poll() is not None:
-        env = dict(os.environ, PYTHONPATH=os.pathsep.join([VERIF_DIR, REPO_DIR, os.path.join(VERIF_DIR, ".deps")]))
-        _zygote = subprocess.Popen([sys.executable, "-W", "ignore", "-m", "harness.zygote"], stdin=subprocess.PIPE, stdout=subprocess.PIPE,
-                                   env=env, cwd=VERIF_DIR, text=True, bufsize=1)
-    return _zygote
+_zygote = Client("harness.zy_tables")
 
 
 def ask_pristine(calls):
-    z = zygote()
-    z.stdin.write(json.dumps(calls) + "\n")
-    z.stdin.flush()
-    line = z.stdout.readline()
-    if not line:
-        raise RuntimeError("zygote died")
-    out = json.loads(line)
-    if isinstance(out, dict):
-        raise RuntimeError("zygote: %s" % out)
-    return out
+    return _zygote.ask(calls)
 
 
 STRICT64 = ["".join(t) for t in itertools.product("ACGT", repeat=3)]
